@@ -363,7 +363,7 @@ theorem doBind_password_session {w : World} {dn : List Char} {pw : Nat} {sl : Bo
     exact ⟨_, by rw [ht]⟩
 
 theorem doSearch_query {w : World} {t : Token} {imp : Option Token} {base : List Char} {sc : SScope}
-    {n : Nat} {o : Outcome} (ho : doSearch w t imp base sc n = o) :
+    {n : Nat} {late : Option Code} {o : Outcome} (ho : doSearch w t imp base sc n late = o) :
     (∀ id ext imp', o = .query id ext imp' → validateLdapSession w t.session = .ok id) ∧
     (∀ id imp', o ≠ .compare id imp') := by
   unfold doSearch at ho
@@ -377,7 +377,7 @@ theorem doSearch_query {w : World} {t : Token} {imp : Option Token} {base : List
     all_goals simp_all [errRespond]
 
 theorem doCompare_query {w : World} {t : Token} {imp : Option Token} {entry : List Char}
-    {o : Outcome} (ho : doCompare w t imp entry = o) :
+    {late : Option Code} {o : Outcome} (ho : doCompare w t imp entry late = o) :
     (∀ id imp', o = .compare id imp' → validateLdapSession w t.session = .ok id) ∧
     (∀ id ext imp', o ≠ .query id ext imp') := by
   unfold doCompare at ho
